@@ -1,6 +1,7 @@
 """C09 — HTTP router (rest/router/patrouter.go over core/search/tree.go)."""
 import itertools
 import os
+import random
 import re
 
 import vlib
@@ -127,6 +128,34 @@ HTTP_METHOD_CONSTS = {"MethodGet": "GET", "MethodHead": "HEAD", "MethodPost": "P
                       "MethodDelete": "DELETE", "MethodConnect": "CONNECT", "MethodOptions": "OPTIONS", "MethodTrace": "TRACE"}
 HTTP_STATUS_CONSTS = {"StatusMethodNotAllowed": 405, "StatusNotFound": 404, "StatusOK": 200, "StatusNoContent": 204,
                       "StatusForbidden": 403, "StatusBadRequest": 400}
+
+
+ANCHOR_MARKS = ("/core/search/", "/rest/router/", "/rest/pathvar/", "/rest/server.go", "/rest/engine.go", "/harness/cmd/c09/")
+
+
+def _races(out):
+    """split the race detector's reports: (those with a racing access in C09's anchored code or in the executor's own reads
+    of the path variables, [access sites of the others])"""
+    relevant, others = [], []
+    for block in out.split("==================")[1:]:
+        if "WARNING: DATA RACE" not in block:
+            continue
+        sites = []
+        lines = block.splitlines()
+        for i, l in enumerate(lines):
+            if re.match(r"^(Read|Write|Previous read|Previous write|Atomic|Previous atomic)", l.strip()):
+                # first frame below that is not in GOROOT
+                for j in range(i + 1, min(i + 12, len(lines)) - 1, 2):
+                    f = lines[j + 1].strip()
+                    if "/usr/lib/go" in f or f.startswith("<autogenerated>"):
+                        continue
+                    sites.append(lines[j].strip() + " " + f.split(" ")[0])
+                    break
+        if any(m in s for s in sites for m in ANCHOR_MARKS):
+            relevant.append("==================" + block)
+        else:
+            others += sites
+    return relevant, others
 
 
 def _func_body(src, header_re):
@@ -822,6 +851,51 @@ class C09(Property):
         reqs = clist(["mkReq %s %s %s %s %s %d" % (cstr(rq[0]), cstr(r["path"]), cstr(r["clean"]), self._resp(r), self._late(r), after(rq))
                       for rq, r in zip(case["reqs"], obs["res"]) if r["k"] != "badreq"])
         return "CRouter (mkCase %s %s %s %s %s %s)" % (cbool(case["nf"]), cbool(case["na"]), regs, regobs, pclean, reqs)
+
+    # ---- free-running -race family (thorough tier) ---------------------------------
+    def extra(self, ctx):
+        if ctx.tier != "thorough":
+            return []
+        ok, res = vlib.go_build("c09", race=True)
+        if not ok:
+            raise ExecError("c09 -race executor does not build: %s" % res[-1500:])
+        rng = random.Random(ctx.seed * 31 + 9)
+        cases = self.corpus() + self.gen(rng, 150, "quick")
+        for i, c in enumerate(cases):
+            c["id"] = i
+            nflag = 4 if c.get("kind") == "server" else 3
+            reqs = []
+            for rep in range(3):          # every request three times, all of them at once, no gates
+                for rq in c["reqs"]:
+                    rq = list(rq) + [""] * (nflag + 1 - len(rq))
+                    toks = [t for t in rq[nflag].split("+") if t.startswith("do=") and t[3:] not in ("500", "panic")]
+                    reqs.append(rq[:nflag] + ["+".join(toks + ["f1"])])
+            c["reqs"] = reqs
+        rc, out, raw = vlib.go_run(res, cases, tag="c09race", timeout=1500, env={"GORACE": "halt_on_error=0 exitcode=0"})
+        fails = []
+        relevant, others = _races(out)
+        if others:
+            ctx.notes.append("race detector: %d report(s) whose racing accesses are outside C09's anchored code (not judged here): %s"
+                             % (len(others), "; ".join(sorted(set(others)))[:600]))
+        if relevant:
+            fails.append({"what": "data race reported by the Go race detector in the router / search tree / pathvar / server "
+                                  "registration code (or on the path variables handed to a handler) while concurrent requests "
+                                  "were served by one router",
+                          "replay": relevant[0][:4000]})
+        if rc != 0 or len(raw) != len(cases):
+            raise ExecError("c09 -race executor rc=%s: %s" % (rc, out[-2000:]))
+        obs = [{"regerr": r["regerr"], "pclean": r["pclean"], "res": r["res"], "starts": r.get("starts") or [],
+                "routes": r.get("routes") or [], "printed": r.get("printed") or [], "tables_after": r.get("tables_after") or []}
+               for r in raw]
+        rs = vlib.coq_eval_cases(self.id, self.check_module, [self.coq_case(c, o) for c, o in zip(cases, obs)])
+        for c, o, (a, p) in zip(cases, obs, rs):
+            if not p or not a:
+                fails.append({"what": "free-running concurrent requests on one router: a response or a read of the path variables "
+                                      "is not what the route table prescribes for that request (agrees=%s prop_ok=%s)" % (a, p),
+                              "replay": {"case": c, "observed": o}})
+                if len(fails) >= 3:
+                    break
+        return fails
 
     # ---- statistics -------------------------------------------------------------
     def nontrivial(self, case, obs):
